@@ -104,6 +104,7 @@ type duplexEnd struct {
 	closed    bool // closed by the code under test
 	nClose    int
 	deadline  time.Time
+	wdeadline time.Time // write deadline: a Write at or after it fails, as on a net.Conn
 	timer     *time.Timer
 	local     string
 	remote    string
@@ -154,6 +155,9 @@ func (d *duplexEnd) Write(p []byte) (int, error) {
 	if d.closed {
 		return 0, errDuplexClosed
 	}
+	if !d.wdeadline.IsZero() && !time.Now().Before(d.wdeadline) {
+		return 0, os.ErrDeadlineExceeded
+	}
 	d.out = append(d.out, p...)
 	d.outWrites++
 	return len(p), nil
@@ -185,10 +189,18 @@ func (d *duplexEnd) SetReadDeadline(t time.Time) error {
 	d.cond.Broadcast()
 	return nil
 }
-func (d *duplexEnd) SetDeadline(t time.Time) error      { return d.SetReadDeadline(t) }
-func (d *duplexEnd) SetWriteDeadline(t time.Time) error { return nil }
-func (d *duplexEnd) LocalAddr() net.Addr                { return fakeAddr(d.local) }
-func (d *duplexEnd) RemoteAddr() net.Addr               { return fakeAddr(d.remote) }
+func (d *duplexEnd) SetDeadline(t time.Time) error {
+	d.SetWriteDeadline(t)
+	return d.SetReadDeadline(t)
+}
+func (d *duplexEnd) SetWriteDeadline(t time.Time) error {
+	d.mu.Lock()
+	d.wdeadline = t
+	d.mu.Unlock()
+	return nil
+}
+func (d *duplexEnd) LocalAddr() net.Addr  { return fakeAddr(d.local) }
+func (d *duplexEnd) RemoteAddr() net.Addr { return fakeAddr(d.remote) }
 
 // script side
 func (d *duplexEnd) feed(b []byte) {
